@@ -329,6 +329,8 @@ impl Decoder {
             v => err!(other!("unsupported V value {}", v)),
         };
         let level = dict.r;
+        // /EncryptMetadata is meaningful only when V >= 4 (ISO 32000-1 Table 21)
+        let encrypt_metadata = dict.encrypt_metadata || dict.v < 4;
         if !(2..=6).contains(&level) {
             err!(other!("unsupported standard security handler revision {}", level))
         };
@@ -340,7 +342,7 @@ impl Decoder {
             let key = key_derivation_user_password_rc4(level, key_size, dict, id, pass);
 
             if check_password_rc4(level, dict.u.as_bytes(), id, &key[..std::cmp::min(key_size, 16)]) {
-                let decoder = Decoder::new(key, key_size, method, dict.encrypt_metadata);
+                let decoder = Decoder::new(key, key_size, method, encrypt_metadata);
                 Ok(decoder)
             } else {
                 let password_wrap_key = key_derivation_owner_password_rc4(level, key_size, pass)?;
@@ -364,7 +366,7 @@ impl Decoder {
                 );
 
                 if check_password_rc4(level, dict.u.as_bytes(), id, &key[..key_size]) {
-                    let decoder = Decoder::new(key, key_size, method, dict.encrypt_metadata);
+                    let decoder = Decoder::new(key, key_size, method, encrypt_metadata);
                     Ok(decoder)
                 } else {
                     Err(PdfError::InvalidPassword)
@@ -474,7 +476,7 @@ impl Decoder {
                 .decrypt_padded_mut::<NoPadding>(&mut wrapped_key)
                 .map_err(|_| PdfError::InvalidPassword));
 
-            let decoder = Decoder::new(key_slice.into(),  32, method, dict.encrypt_metadata);
+            let decoder = Decoder::new(key_slice.into(),  32, method, encrypt_metadata);
             Ok(decoder)
         } else {
             err!(format!("unsupported V value {}", level).into())
